@@ -251,6 +251,72 @@ def run(ctx):
     ctx.ob("R11.12", "left neighbour of a range", not missing, site=A.where(ell[0]), detail={"multi_slot_kinds": sorted(kinds), "distinguished_by_the_scanner": sorted(handled & kinds)},
            key="R11.12:left neighbour",
            what="the scanner picks the left neighbour of a range by slot position without telling apart arguments of kind %s, which occupy several slots: the slot before the range is then the last element of that argument (`[1 1] 3 ... 7` reads as 3 5 7)" % missing)
+    # ---- R11.15: the identifier recognisers agree
+    ctx.rule("R11.15", "IDENTIFIER-SIBLINGS: the scanner's identifier parser (parse_identifier, used for words that begin like a reserved word) consumes, on probe words, exactly the characters the checker's skip_identifier consumes (letters, digits and '_' after a letter or '_')")
+    fpi = u.function("parse_identifier")
+    fsk = u.function("skip_identifier")
+    bad15 = []
+    for word in ["tone2", "in1", "Bus_7", "t_9z", "nilpferd", "f", "x9", "_a1", "a", "MIDINOTE", "t", "i2c_bus", "n0", "true1", "a-b", "9x", "", "_"]:
+        text15 = word + " 7"
+        TB15, BUF15, CELL15, ARG15 = 1 << 16, 1 << 18, 64, 1 << 20
+        cells15 = {CELL15: 64}
+        h15 = {}
+
+        def deref15(a_, n_, text15=text15):
+            if TB15 <= a_ <= TB15 + len(text15):
+                return ord(text15[a_ - TB15]) if a_ - TB15 < len(text15) else 0
+            if a_ in cells15:
+                return cells15[a_]
+            raise FD.Unknown("read at %r" % (a_,), n_)
+
+        def store15(a_, v_, n_):
+            if a_ in cells15:
+                cells15[a_] = v_
+            elif BUF15 <= a_ < BUF15 + 256:
+                pass
+            else:
+                raise FD.Unknown("store at %r" % (a_,), n_)
+
+        def hook15(n_, ev_):
+            k_ = n_.get("kind")
+            if k_ == "BinaryOperator" and n_.get("opcode") == "&":
+                enum = [y["referencedDecl"]["name"] for y in A.walk(A.kids(n_)[1]) if y.get("kind") == "DeclRefExpr" and (y.get("referencedDecl") or {}).get("kind") == "EnumConstantDecl"]
+                subs = [y for y in A.walk(A.kids(n_)[0]) if y.get("kind") == "ArraySubscriptExpr"]
+                if len(enum) == 1 and enum[0].startswith("_IS") and subs:
+                    v_ = ev_.ev(A.kids(subs[0])[1])
+                    c_ = chr(v_) if 0 < v_ < 128 else ""
+                    pred = {"_ISalpha": str.isalpha, "_ISdigit": str.isdigit, "_ISalnum": str.isalnum, "_ISspace": str.isspace}.get(enum[0])
+                    if pred is None:
+                        raise FD.Unknown("ctype class " + enum[0], n_)
+                    return 1 if c_ and pred(c_) else 0
+            if k_ == "CallExpr" and A.callee_name(n_) == "__assert_fail":
+                return 0
+            return NotImplemented
+
+        def call15(nm, vals, n_):
+            if nm in ("isalpha", "isalnum", "isdigit", "isspace"):
+                c_ = chr(vals[0]) if 0 < vals[0] < 128 else ""
+                return 1 if c_ and getattr(c_, nm)() else 0
+            fns_ = [f_ for f_ in u.functions.get(nm, []) if u.body(f_) is not None]
+            if len(fns_) == 1:
+                return h15["ev"].call_function(u, fns_[0], vals)
+            raise FD.Unknown("call to %s" % nm, n_)
+        try:
+            ev15 = FD.Eval(deref=deref15, store=store15, node_hook=hook15, call=call15, max_steps=2000)
+            h15["ev"] = ev15
+            r_parse = ev15.call_function(u, fpi, [TB15, ARG15, BUF15, CELL15])
+            ev15b = FD.Eval(deref=deref15, store=store15, node_hook=hook15, call=call15, max_steps=2000)
+            h15["ev"] = ev15b
+            r_skip = ev15b.call_function(u, fsk, [TB15])
+        except FD.Unknown as e:
+            raise AnalysisBroken("R11.15: identifier recognisers not evaluable on %r: %s" % (word, e))
+        c_parse = (r_parse - TB15) if r_parse else 0
+        c_skip = (r_skip - TB15) if r_skip else 0
+        if c_parse != c_skip:
+            bad15.append({"word": word, "scanner_takes": text15[:c_parse], "checker_takes": text15[:c_skip]})
+    ctx.ob("R11.15", "parse_identifier vs skip_identifier", not bad15, site=A.where(fpi), detail={"mismatches": bad15[:6]},
+           what="the scanner's identifier parser and the checker's disagree on %s: the checker counts one value where the scanner stops in the middle of the word" % bad15[:3])
+
     # ---- R11.14: the checker's choice of the left neighbour tells arrays apart (sibling of R11.12)
     ctx.rule("R11.14", "LOOKBEHIND-KINDS (checker): where the checker looks for the value a range counts on from - the text of the previous argument - it sets an array apart (its first character '[' or its type 'a'); an ellipsis inside the array is not the end of a preceding range, and the scanner (R11.12) does not count on from an array")
     chk14 = u.function("rtosc_skip_next_printed_arg")
